@@ -417,6 +417,48 @@ pub fn dewey_cmp(lhs: &DeweyVersion, op: &DeweyOp, rhs: &DeweyVersion) -> bool {
     dewey_test(lhs.pkgrevision, op, rhs.pkgrevision)
 }
 
+/*
+ * Verification hooks (cfg pkgsrc_verif only): expose the private fields of
+ * DeweyVersion / Dewey so that an external harness can compare them with a
+ * formal model.  Never compiled in normal builds.
+ */
+#[cfg(pkgsrc_verif)]
+impl DeweyVersion {
+    /// Parsed components and PKGREVISION.
+    pub fn verif_parts(&self) -> (&[i64], i64) {
+        (&self.version, self.pkgrevision)
+    }
+    /// Build a version directly from components and PKGREVISION.
+    pub fn verif_from_parts(version: Vec<i64>, pkgrevision: i64) -> Self {
+        DeweyVersion {
+            version,
+            pkgrevision,
+        }
+    }
+}
+
+#[cfg(pkgsrc_verif)]
+impl Dewey {
+    /// Base name and the (operator, components, PKGREVISION) of each bound.
+    pub fn verif_describe(&self) -> (&str, Vec<(&'static str, Vec<i64>, i64)>) {
+        (
+            &self.pkgname,
+            self.matches
+                .iter()
+                .map(|m| {
+                    let op = match m.op {
+                        DeweyOp::LE => "le",
+                        DeweyOp::LT => "lt",
+                        DeweyOp::GE => "ge",
+                        DeweyOp::GT => "gt",
+                    };
+                    (op, m.version.version.clone(), m.version.pkgrevision)
+                })
+                .collect(),
+        )
+    }
+}
+
 #[cfg(test)]
 mod tests {
     use super::*;
